@@ -74,6 +74,7 @@ type cbInv struct {
 	exp    *expState
 	kind   string // run | rar | prov<i>
 	argFPs []string
+	argIDs []string
 	res    []reflect.Value
 }
 
@@ -178,7 +179,7 @@ func (r *testifyRun) trig(m *methodInfo, style string) string {
 
 func (r *testifyRun) recorder(e *expState, kind string, ft reflect.Type, outs func() []reflect.Value) reflect.Value {
 	return reflect.MakeFunc(ft, func(in []reflect.Value) []reflect.Value {
-		inv := cbInv{task: simsync.CurTask(), exp: e, kind: kind, argFPs: fpsOfReceived(e.m, in)}
+		inv := cbInv{task: simsync.CurTask(), exp: e, kind: kind, argFPs: fpsOfReceived(e.m, in), argIDs: IDs(in)}
 		simsync.Yield()
 		if outs != nil {
 			inv.res = outs()
@@ -506,6 +507,18 @@ func (r *testifyRun) call(task, oi int, op Op, ops []Op) {
 			r.fail(&Violation{"callback-arguments-differ", site, trig + "," + cb.kind, "the callback receives exactly the call's arguments: " + short(tupleOf(args.FPs), 300), short(tupleOf(cb.argFPs), 300)})
 			return
 		}
+		// the fixed parameters arrive as the very values that were passed (the variadic list is
+		// rebuilt by reflection and by the unroll wrappers, so it has no identity to compare)
+		nFixed := m.Type.NumIn()
+		if m.Variadic {
+			nFixed--
+		}
+		for j := 0; j < nFixed && j < len(cb.argIDs); j++ {
+			if want := ID(args.Vals[j]); want != "" && cb.argIDs[j] != want {
+				r.fail(&Violation{"callback-arguments-are-copies", site, trig + "," + cb.kind, "the callback receives exactly the call's arguments (the very pointers, maps and slices)", fmt.Sprintf("parameter %d: passed %s, received %s", j, want, cb.argIDs[j])})
+				return
+			}
+		}
 	}
 	for k := range want {
 		if seen[k] != 1 {
@@ -521,26 +534,29 @@ func (r *testifyRun) call(task, oi int, op Op, ops []Op) {
 	}
 	// results
 	exp := make([]string, nOut)
+	expID := make([]string, nOut)
 	for i := 0; i < nOut; i++ {
 		switch {
 		case e.style == "runandreturn":
 			for _, cb := range cbs {
 				if cb.kind == "rar" {
-					exp[i] = FP(cb.res[i])
+					exp[i], expID[i] = FP(cb.res[i]), ID(cb.res[i])
 				}
 			}
 		case e.style == "providers" && e.provider[i]:
 			for _, cb := range cbs {
 				if cb.kind == fmt.Sprintf("prov%d", i) {
-					exp[i] = FP(cb.res[0])
+					exp[i], expID[i] = FP(cb.res[0]), ID(cb.res[0])
 				}
 			}
 		default:
-			exp[i] = FP(e.retVals[i])
+			exp[i], expID[i] = FP(e.retVals[i]), ID(e.retVals[i])
 		}
 	}
 	if got := fpsOf(outs); !eqStrs(got, exp) {
 		r.fail(&Violation{"results-differ", site, trig, "exactly the configured values / what the function returned: " + short(tupleOf(exp), 300), what + " returned " + short(tupleOf(got), 300)})
+	} else if got := IDs(outs); !eqStrs(got, expID) {
+		r.fail(&Violation{"results-are-copies", site, trig, "exactly the values given to Return / returned by the function (the very slices, maps and pointers): " + short(tupleOf(expID), 300), what + " returned " + short(tupleOf(got), 300)})
 	}
 }
 
